@@ -4,8 +4,8 @@ META = {
     'level': 'exploration',
     'rule': ('Seeded parameter trees over the value grammar (scalars incl. edge ints/floats/strings, enums of two '
              'same-named classes in two modules, tuples/lists, string-keyed dicts/frozendicts, nested tasks, depth '
-             '<= 4) for task types {VA, VB, VAX(prefix-named), tasks_alt.VA(same qualname), VJ(other cache), VP}; '
-             'for each base tree: equal re-spellings, pickle round trips (all protocols), serializer round trip, and '
+             '<= 4) for task types {VA, VB, VAX(prefix-named), tasks_alt.VA(same qualname), VJ(other cache), VP, VU(underscore-prefixed parameter)}; '
+             'for each base tree: equal re-spellings, pickle round trips (all protocols), serializer round trip, rebuilding from a really stored metadata.json (cache.save + load_task), and '
              '3+ near-miss mutations of one node (scalar type, enum class/module, nesting, length, order, dict key, '
              'nested task type). Monitors: key ledger {typed canonical identity -> key} checked as a function and as '
              'an injection within the shard; a shared construction list (seeded by VERIF_SEED only) is keyed in '
@@ -22,10 +22,8 @@ META = {
 
 
 def build(module, cls, pdesc, qdesc):
-    import importlib
     from vlab import valgen
-    T = getattr(importlib.import_module(module), cls)
-    return T(p=valgen.realize(pdesc), q=valgen.realize(qdesc))
+    return valgen.make_task(module, cls, valgen.realize(pdesc), valgen.realize(qdesc))
 
 
 def shared_list(seed, n):
@@ -119,6 +117,23 @@ def run_shard(rep):
                 rep.count('metadata_roundtrips')
             else:
                 rep.foreign['deserialize gave unequal task'] += 1
+        if j % (5 * rep.nshards) < rep.nshards:
+            # the real thing: save the entry through the task type's cache, rebuild the task from the stored metadata
+            from labtech.types import ResultMeta, TaskResult
+            from datetime import datetime, timedelta
+            try:
+                cache = type(base)._lt.cache
+                cache.save(store, base, TaskResult(value=1, meta=ResultMeta(start=datetime(2020, 1, 1), duration=timedelta(seconds=1))))
+                t6 = cache.load_task(store, type(base), base.cache_key)
+                cache.delete(store, base)
+            except Exception as ex:
+                rep.foreign[f'save/load_task raised {type(ex).__name__}'] += 1
+            else:
+                if t6 == base:
+                    record(idn, t6, 'rebuilt from the stored metadata file', wit)
+                    rep.count('stored_metadata_roundtrips')
+                else:
+                    rep.foreign['load_task gave unequal task'] += 1
         # near misses
         for _ in range(3):
             nm = valgen.near_miss(rng, {'task': [m, c, p, q]})
